@@ -45,25 +45,25 @@ type Exec struct {
 	paths   int
 	Notes   []string
 
-	wantNoPanic bool
-	Abstracted  map[string]bool
-	Inlined     map[string]bool
-	ByContract  map[string]bool
-	UserCalls   map[string]bool
-	err         error
-	maxPaths    int
-	specDepth   int
-	returns     int
-	effectCtx   *Term
-	covers      map[string]bool
-	heapSorts   map[string]string
-	Spawned     map[string]int
-	otherLoops  map[*ssa.Function]map[*ssa.BasicBlock]*loopInfo
+	wantNoPanic  bool
+	Abstracted   map[string]bool
+	Inlined      map[string]bool
+	ByContract   map[string]bool
+	UserCalls    map[string]bool
+	err          error
+	maxPaths     int
+	specDepth    int
+	returns      int
+	effectCtx    *Term
+	covers       map[string]bool
+	heapSorts    map[string]string
+	Spawned      map[string]int
+	otherLoops   map[*ssa.Function]map[*ssa.BasicBlock]*loopInfo
 	specDeclared map[string]bool
-	entryParams map[*ssa.Parameter]SymVal
-	implLocal   map[string]types.Type
-	pushed      bool
-	curLoop     *loopInfo
+	entryParams  map[*ssa.Parameter]SymVal
+	implLocal    map[string]types.Type
+	pushed       bool
+	curLoop      *loopInfo
 }
 
 type pathAbort struct{ reason string }
@@ -126,8 +126,8 @@ func (x *Exec) Cover(st *State, name string, pos token.Pos) {
 // ---------------------------------------------------------------- heap access
 
 func fieldKey(si *structInfo, i int) string { return "F!" + si.key + "!" + si.fields[i].name }
-func cellKey(t types.Type) string          { return "C!" + shortTypeKey(types.Unalias(t)) }
-func elemKey(t types.Type) string          { return "E!" + shortTypeKey(types.Unalias(t)) }
+func cellKey(t types.Type) string           { return "C!" + shortTypeKey(types.Unalias(t)) }
+func elemKey(t types.Type) string           { return "E!" + shortTypeKey(types.Unalias(t)) }
 func mapKeys(m *types.Map) (has, val, card string) {
 	k := shortTypeKey(m.Key()) + "!" + shortTypeKey(m.Elem())
 	return "MH!" + k, "MV!" + k, "MC!" + k
@@ -183,6 +183,30 @@ func (x *Exec) setHeap(st *State, key string, val Term) {
 	n := x.D.Fresh("H_"+key, sort)
 	st.Assume(Eq(n, val))
 	st.heaps[key] = n
+	st.heapTop[key] = st.top
+}
+
+// topOf returns the allocation frontier bounding every reference stored under key.
+func (x *Exec) topOf(st *State, key string) Term {
+	if t, ok := st.heapTop[key]; ok {
+		return t
+	}
+	return mk(SInt, "top0")
+}
+
+// loadTop returns the frontier bounding a value loaded through p.
+func (x *Exec) loadTop(st *State, p SymVal, elem types.Type) Term {
+	switch a := p.(type) {
+	case Term:
+		if !isStruct(elem) {
+			return x.topOf(st, x.cellHeapKey(elem))
+		}
+	case *Addr:
+		if a.Kind != aLocal {
+			return x.topOf(st, a.Key)
+		}
+	}
+	return st.top
 }
 
 func (x *Exec) fieldHeapKey(structT types.Type, i int) (string, fieldInfo) {
@@ -399,6 +423,7 @@ func (x *Exec) havocKey(st *State, key string) {
 	old := x.heap(st, key)
 	n := x.D.Fresh("H_"+key, x.mustSort(key))
 	st.heaps[key] = n
+	st.heapTop[key] = st.top
 	ks, _, _ := arrParts(n.Sort)
 	if ks == SInt {
 		for _, r := range sortedKeys(st.fresh) {
